@@ -334,6 +334,9 @@ static void register_recipes() {
     R["cand.aw-long"] = [D](G &g) { g.getCandidateConstructionPoints(type_level, VI(D(g) + 1, 1)); };
     R["cand.aw-empty"] = [](G &g) { g.getCandidateConstructionPoints(type_level); };
     R["cand.aw-curved-short"] = [D](G &g) { g.getCandidateConstructionPoints(type_ipcurved, VI(D(g), 1)); };
+    R["cand.aw-curved-short-plain"] = [D](G &g) { g.getCandidateConstructionPoints(type_curved, VI(D(g), 1)); };       // every curved type needs 2 * dimensions weights
+    R["cand.aw-curved-short-qp"] = [D](G &g) { g.getCandidateConstructionPoints(type_qpcurved, VI(D(g), 1)); };
+    R["cand.aw-level-long2"] = [D](G &g) { g.getCandidateConstructionPoints(type_qptotal, VI(2 * D(g), 1)); };          // and every other type exactly dimensions
     R["cand.aw-ll-long"] = [D](G &g) { g.getCandidateConstructionPoints(type_level, VI(D(g), 1), VI(D(g) + 1, 3)); };
     R["cand.out"] = [](G &g) { g.getCandidateConstructionPoints(type_iptotal, 0); };
     R["cand.out-high"] = [](G &g) { g.getCandidateConstructionPoints(type_iptotal, g.getNumOutputs()); };
